@@ -354,6 +354,10 @@ class Application(object):
             error_params = dict(params, _error=ret)
             try:
                 ret = ret.source_route.execute_error(**error_params)
+                if not isinstance(ret, BaseResponse):
+                    # as useless as a render_error that raises
+                    raise TypeError('expected Response from render_error,'
+                                    ' received %r' % type(ret))
             except Exception:
                 ret = default_render_error(**error_params)
         return ret
